@@ -8,6 +8,13 @@
 (*        -> admitted -> InnerStart -> InnerEnd -> Release (token back).   *)
 (* An operation on a lock file skips token and gate.                       *)
 (* Freeze() = freezeLock.Lock() by the controller, Unfreeze() = Unlock().  *)
+(* Cancel(o): the context of an operation that is held back by the wrapper  *)
+(* (queued for a token or at the freeze gate) is cancelled.  Such an        *)
+(* operation never starts: either it gives up waiting at once ("abandon":   *)
+(* a context-aware wait; it holds no token, so the token count must not     *)
+(* change) or it keeps waiting, passes token and gate and returns without   *)
+(* touching the wrapped backend, giving its own token back ("stay": what a  *)
+(* wait that ignores the context does).  Both are allowed.                  *)
 (* "An operation starts" = it is admitted (typeDependentLimit returned).   *)
 (*                                                                         *)
 (* Spec: all interleavings.  SpecQ/SpecQS: scheduler view for the replay:  *)
@@ -20,7 +27,8 @@ EXTENDS SemaProps, TLC
 CONSTANTS K,        \* operations 1..K, each called at most once
           N,        \* configured connections
           MaxFreeze,\* number of Freeze calls in a behaviour
-          Twin,     \* "none" | "token_after_gate" | "limit_locks" | "release_twice" | "no_gate"
+          MaxCancel,\* number of context cancellations in a behaviour
+          Twin,     \* "none" | "token_after_gate" | "limit_locks" | "release_twice" | "no_gate" | "cancel_releases"
           Record
 
 Ops == 1..K
@@ -29,88 +37,111 @@ CTL == 0 - 1   \* holder id of freezeLock when the controller froze the backend
 VARIABLES pc,      \* idle, called, tok, fl, pregate, adm, inner, ret, done
           isLock, tokens, fmu, frozen, fpend, nfreeze,
           admittedFrozen,   \* history: non-lock operations admitted while frozen
+          cmode,   \* per operation: "none" | "abandon" | "stay" (context cancelled while held back)
+          ncancel,
           sched
-vars == <<pc, isLock, tokens, fmu, frozen, fpend, nfreeze, admittedFrozen, sched>>
+vars == <<pc, isLock, tokens, fmu, frozen, fpend, nfreeze, admittedFrozen, cmode, ncancel, sched>>
 
 Init == /\ pc = [o \in Ops |-> "idle"] /\ isLock = [o \in Ops |-> FALSE]
         /\ tokens = 0 /\ fmu = 0 /\ frozen = FALSE /\ fpend = FALSE /\ nfreeze = 0
         /\ admittedFrozen = {} /\ sched = <<>>
+        /\ cmode = [o \in Ops |-> "none"] /\ ncancel = 0
 
 Limited(o) == ~isLock[o] \/ Twin = "limit_locks"
 
-Admit(o) == /\ pc' = [pc EXCEPT ![o] = "adm"]
-            /\ admittedFrozen' = IF frozen /\ ~isLock[o] THEN admittedFrozen \cup {o} ELSE admittedFrozen
+\* typeDependentLimit returns: the operation starts, unless its context is cancelled (ctx.Err() != nil:
+\* it returns without calling the wrapped backend and releases what it holds)
+Admit(o) == IF cmode[o] # "none"
+            THEN pc' = [pc EXCEPT ![o] = "ret"] /\ UNCHANGED admittedFrozen
+            ELSE /\ pc' = [pc EXCEPT ![o] = "adm"]
+                 /\ admittedFrozen' = IF frozen /\ ~isLock[o] THEN admittedFrozen \cup {o} ELSE admittedFrozen
 
 Call(o, lock) ==
   /\ pc[o] = "idle" /\ \A q \in Ops : q < o => pc[q] # "idle"
   /\ pc' = [pc EXCEPT ![o] = "called"] /\ isLock' = [isLock EXCEPT ![o] = lock]
   /\ sched' = IF Record THEN Append(sched, 10 * o + (IF lock THEN 1 ELSE 0)) ELSE sched
-  /\ UNCHANGED <<tokens, fmu, frozen, fpend, nfreeze, admittedFrozen>>
+  /\ UNCHANGED <<tokens, fmu, frozen, fpend, nfreeze, admittedFrozen, cmode, ncancel>>
 
 \* lock files: typeDependentLimit returns at once
 Bypass(o) ==
   /\ pc[o] = "called" /\ ~Limited(o)
   /\ Admit(o)
-  /\ UNCHANGED <<isLock, tokens, fmu, frozen, fpend, nfreeze, sched>>
+  /\ UNCHANGED <<isLock, tokens, fmu, frozen, fpend, nfreeze, cmode, ncancel, sched>>
 
 GetToken(o) ==
   /\ Limited(o) /\ tokens < N
   /\ \/ pc[o] = "called" /\ Twin # "token_after_gate"
-        /\ pc' = [pc EXCEPT ![o] = IF Twin = "no_gate" THEN "adm" ELSE "tok"]
-        /\ admittedFrozen' = IF Twin = "no_gate" /\ frozen /\ ~isLock[o] THEN admittedFrozen \cup {o} ELSE admittedFrozen
+        /\ IF Twin = "no_gate" THEN Admit(o) ELSE pc' = [pc EXCEPT ![o] = "tok"] /\ UNCHANGED admittedFrozen
      \/ pc[o] = "pregate" /\ Admit(o)       \* twin: token taken after the freeze gate
   /\ tokens' = tokens + 1
-  /\ UNCHANGED <<isLock, fmu, frozen, fpend, nfreeze, sched>>
+  /\ UNCHANGED <<isLock, fmu, frozen, fpend, nfreeze, cmode, ncancel, sched>>
 
 FLock(o) ==
   /\ Limited(o) /\ fmu = 0
   /\ \/ pc[o] = "tok"
      \/ pc[o] = "called" /\ Twin = "token_after_gate"
   /\ fmu' = o /\ pc' = [pc EXCEPT ![o] = "fl"]
-  /\ UNCHANGED <<isLock, tokens, frozen, fpend, nfreeze, admittedFrozen, sched>>
+  /\ UNCHANGED <<isLock, tokens, frozen, fpend, nfreeze, admittedFrozen, cmode, ncancel, sched>>
 
 FUnlock(o) ==
   /\ pc[o] = "fl" /\ fmu = o
   /\ fmu' = 0
   /\ IF Twin = "token_after_gate" THEN pc' = [pc EXCEPT ![o] = "pregate"] /\ UNCHANGED admittedFrozen
      ELSE Admit(o)
-  /\ UNCHANGED <<isLock, tokens, frozen, fpend, nfreeze, sched>>
+  /\ UNCHANGED <<isLock, tokens, frozen, fpend, nfreeze, cmode, ncancel, sched>>
 
 InnerStart(o) ==
   /\ pc[o] = "adm" /\ pc' = [pc EXCEPT ![o] = "inner"]
-  /\ UNCHANGED <<isLock, tokens, fmu, frozen, fpend, nfreeze, admittedFrozen, sched>>
+  /\ UNCHANGED <<isLock, tokens, fmu, frozen, fpend, nfreeze, admittedFrozen, cmode, ncancel, sched>>
 
 InnerEnd(o) ==
   /\ pc[o] = "inner" /\ pc' = [pc EXCEPT ![o] = "ret"]
   /\ sched' = IF Record THEN Append(sched, 10 * o + 2) ELSE sched
-  /\ UNCHANGED <<isLock, tokens, fmu, frozen, fpend, nfreeze, admittedFrozen>>
+  /\ UNCHANGED <<isLock, tokens, fmu, frozen, fpend, nfreeze, admittedFrozen, cmode, ncancel>>
 
 Release(o) ==
   /\ pc[o] = "ret" /\ pc' = [pc EXCEPT ![o] = "done"]
   /\ tokens' = IF ~Limited(o) THEN tokens
                ELSE IF Twin = "release_twice" THEN (IF tokens >= 2 THEN tokens - 2 ELSE 0) ELSE tokens - 1
-  /\ UNCHANGED <<isLock, fmu, frozen, fpend, nfreeze, admittedFrozen, sched>>
+  /\ UNCHANGED <<isLock, fmu, frozen, fpend, nfreeze, admittedFrozen, cmode, ncancel, sched>>
+
+\* the context of a held-back operation is cancelled (controller action)
+Cancel(o, m) ==
+  /\ ncancel < MaxCancel /\ cmode[o] = "none"
+  /\ pc[o] \in {"called", "tok", "pregate"}
+  /\ cmode' = [cmode EXCEPT ![o] = m] /\ ncancel' = ncancel + 1
+  /\ sched' = IF Record THEN Append(sched, 10 * o + 3) ELSE sched
+  /\ UNCHANGED <<pc, isLock, tokens, fmu, frozen, fpend, nfreeze, admittedFrozen>>
+
+\* a cancelled operation gives up waiting for a token: it returns, it holds no token and gives none back
+\* (twin "cancel_releases": its deferred release takes a token of somebody else)
+Abandon(o) ==
+  /\ pc[o] = "called" /\ Limited(o) /\ cmode[o] = "abandon" /\ Twin # "token_after_gate"
+  /\ pc' = [pc EXCEPT ![o] = "done"]
+  /\ tokens' = IF Twin = "cancel_releases" /\ tokens > 0 THEN tokens - 1 ELSE tokens
+  /\ UNCHANGED <<isLock, fmu, frozen, fpend, nfreeze, admittedFrozen, cmode, ncancel, sched>>
 
 FreezeCall ==
   /\ ~frozen /\ ~fpend /\ nfreeze < MaxFreeze
   /\ fpend' = TRUE /\ nfreeze' = nfreeze + 1
   /\ sched' = IF Record THEN Append(sched, 1) ELSE sched
-  /\ UNCHANGED <<pc, isLock, tokens, fmu, frozen, admittedFrozen>>
+  /\ UNCHANGED <<pc, isLock, tokens, fmu, frozen, admittedFrozen, cmode, ncancel>>
 
 FreezeAcq ==
   /\ fpend /\ fmu = 0
   /\ fmu' = CTL /\ frozen' = TRUE /\ fpend' = FALSE
-  /\ UNCHANGED <<pc, isLock, tokens, nfreeze, admittedFrozen, sched>>
+  /\ UNCHANGED <<pc, isLock, tokens, nfreeze, admittedFrozen, cmode, ncancel, sched>>
 
 Unfreeze ==
   /\ frozen
   /\ fmu' = 0 /\ frozen' = FALSE
   /\ sched' = IF Record THEN Append(sched, 2) ELSE sched
-  /\ UNCHANGED <<pc, isLock, tokens, fpend, nfreeze, admittedFrozen>>
+  /\ UNCHANGED <<pc, isLock, tokens, fpend, nfreeze, admittedFrozen, cmode, ncancel>>
 
-Step(o)  == Bypass(o) \/ GetToken(o) \/ FLock(o) \/ FUnlock(o) \/ InnerStart(o) \/ Release(o)
+Step(o)  == Bypass(o) \/ Abandon(o) \/ GetToken(o) \/ FLock(o) \/ FUnlock(o) \/ InnerStart(o) \/ Release(o)
 Internal == (\E o \in Ops : Step(o)) \/ FreezeAcq
-Control  == (\E o \in Ops : (\E l \in BOOLEAN : Call(o, l)) \/ InnerEnd(o)) \/ FreezeCall \/ Unfreeze
+Control  == \/ \E o \in Ops : (\E l \in BOOLEAN : Call(o, l)) \/ InnerEnd(o) \/ (\E m \in {"abandon", "stay"} : Cancel(o, m))
+            \/ FreezeCall \/ Unfreeze
 
 AllDone  == (\A o \in Ops : pc[o] = "done") /\ ~frozen /\ ~fpend
 Finished == AllDone /\ UNCHANGED vars
